@@ -26,6 +26,14 @@ REQUIRED = ['kcore_bu/core_matrix', 'kcore_bu/size', 'kcore_bd/core_matrix', 'kc
 CASE_TIMEOUT = {'quick': 30.0, 'thorough': 180.0}
 
 
+
+def _cc_und(rs, n, binary=False, p=.15):
+    A = np.triu((rs.rand(n, n) < p).astype(float), 1)
+    A[np.arange(n - 1), np.arange(1, n)] = 1      # a spanning path keeps it connected
+    W = A if binary else A * (rs.rand(n, n) * .9 + .1)
+    return W + W.T
+
+
 def cases(tier, seed):
     thorough = tier == 'thorough'
     out = []
@@ -48,6 +56,7 @@ def cases(tier, seed):
     for i, (g, d) in enumerate(recs):
         out.append({'g': g, 'directed': d, 'ws': seed * 100 + i})
     out.append({'kind': 'degenerate', 'g': ['named', 'path', 2], 'directed': False, 'ws': 0, 'schemes': []})
+    out.append({'kind': 'concurrent', 'g': ['named', 'path', 2], 'directed': False, 'ws': seed, 'schemes': [], 'n': 220 if tier == 'thorough' else 120})
     return out
 
 
@@ -96,6 +105,10 @@ def check_peel(A, k, mode, core, order, level):
 
 
 def run(case, bct, REC):
+    if case.get('kind') == 'concurrent':
+        from .common import concurrent_callers_agree
+        REC.tag(PROP, 'exec')
+        return concurrent_callers_agree(REC, PROP, bct, [('kcore_bu', lambda rs, n: (_cc_und(rs, n, True), 3)), ('score_wu', lambda rs, n: (_cc_und(rs, n), 1.5)), ('kcoreness_centrality_bu', lambda rs, n: (_cc_und(rs, n, True),))], case['n'], case['ws'])
     if case.get('kind') == 'degenerate':
         from .common import degenerate_sizes
         REC.tag(PROP, 'exec')
